@@ -8,8 +8,8 @@ import (
 	"bytes"
 	_ "embed"
 	"fmt"
+	"go/format"
 	"go/parser"
-	"go/printer"
 	"go/token"
 	"io"
 	"iter"
@@ -1417,8 +1417,8 @@ func (t *Tree) Compile(file string, args []string, out io.Writer) (err error) {
 		_, _ = buffer.WriteTo(out)
 		return err
 	}
-	formatter := printer.Config{Mode: printer.TabIndent | printer.UseSpaces, Tabwidth: 8}
-	err = formatter.Fprint(out, fileSet, code)
+	/* gofmt's own configuration, which also normalises number literals */
+	err = format.Node(out, fileSet, code)
 	if err != nil {
 		_, _ = buffer.WriteTo(out)
 		return err
